@@ -34,6 +34,20 @@ static inline _Bool weak_ptr_size_expired(const weak_ptr_size *w)
   return nondet_bool();
 }
 
+/* weak_ptr::lock() on a slot's heartbeat.  The manager must never do this: a promoted reference keeps the heartbeat of
+ * an exited thread alive, and CreateEpochGuard relies on "a heartbeat stored in my slot is mine or EXPIRED" (C15) to
+ * re-bind a reused slot. */
+static size_t ep_promoted_dummy;
+static inline shared_ptr_size weak_ptr_size_lock(const weak_ptr_size *w)
+{
+  __CPROVER_assert(0, "[C04][G.no-promotion] the epoch manager never promotes a thread's heartbeat (weak_ptr::lock would keep the heartbeat of an exited thread alive, so the thread that reuses its id finds the slot 'alive' and does not re-bind it)");
+  shared_ptr_size p = shared_ptr_size_default();
+  if(!weak_ptr_size_expired(w)) { p.ptr = &ep_promoted_dummy; p.gen = w->gen; }
+  return p;
+}
+static inline _Bool shared_ptr_size_bool(const shared_ptr_size *p) { return p->ptr != 0; }
+static inline void shared_ptr_size_dtor(shared_ptr_size *p) { p->ptr = 0; }
+
 /* load of a slot's pinned epoch */
 uint64_t ep_slot_load(atomic_u64 *a)
 {
